@@ -361,6 +361,82 @@ var shapes = []shapeDef{
 			}
 			return &Shape{A: i, B: fmt.Sprint("b", i)}
 		}},
+	{"slice-of-struct-instead-of-value",
+		func() sod.Object {
+			type Shape struct {
+				sod.Item
+				A   int `sod:"index"`
+				B   string
+				Sub []SubA
+			}
+			return &Shape{}
+		},
+		func(i int) sod.Object {
+			type Shape struct {
+				sod.Item
+				A   int `sod:"index"`
+				B   string
+				Sub []SubA
+			}
+			return &Shape{A: i, B: fmt.Sprint("b", i), Sub: []SubA{{X: i}}}
+		}},
+	{"array-of-struct-instead-of-value",
+		func() sod.Object {
+			type Shape struct {
+				sod.Item
+				A   int `sod:"index"`
+				B   string
+				Sub [2]SubA
+			}
+			return &Shape{}
+		},
+		func(i int) sod.Object {
+			type Shape struct {
+				sod.Item
+				A   int `sod:"index"`
+				B   string
+				Sub [2]SubA
+			}
+			return &Shape{A: i, B: fmt.Sprint("b", i), Sub: [2]SubA{{X: i}}}
+		}},
+	{"pointer-to-struct-instead-of-value",
+		func() sod.Object {
+			type Shape struct {
+				sod.Item
+				A   int `sod:"index"`
+				B   string
+				Sub *SubA
+			}
+			return &Shape{}
+		},
+		func(i int) sod.Object {
+			type Shape struct {
+				sod.Item
+				A   int `sod:"index"`
+				B   string
+				Sub *SubA
+			}
+			return &Shape{A: i, B: fmt.Sprint("b", i), Sub: &SubA{X: i}}
+		}},
+	{"slice-of-pointers-to-struct-instead-of-value",
+		func() sod.Object {
+			type Shape struct {
+				sod.Item
+				A   int `sod:"index"`
+				B   string
+				Sub []*SubA
+			}
+			return &Shape{}
+		},
+		func(i int) sod.Object {
+			type Shape struct {
+				sod.Item
+				A   int `sod:"index"`
+				B   string
+				Sub []*SubA
+			}
+			return &Shape{A: i, B: fmt.Sprint("b", i), Sub: []*SubA{{X: i}}}
+		}},
 }
 
 // own (path,type,tag) walk, independent of sod.FieldDescriptors
@@ -713,11 +789,20 @@ func caseC17Settings(t TB, prog *Program) {
 				want := sod.ErrExtensionMismatch
 				if op.Ref%4 == 0 {
 					nc.Ext = e.cfg.Ext + "x"
+					// "no extension" and the default extension are different extensions
+					if e.cfg.Ext == "" && op.Ref%8 == 0 {
+						nc.Ext = ".json"
+					} else if e.cfg.Ext == ".json" && op.Ref%8 == 0 {
+						nc.Ext = ""
+					}
 				} else if op.Ref%4 == 1 {
 					// extensions are file-name suffixes: they differ when their case differs
 					nc.Ext = strings.ToUpper(e.cfg.Ext)
 					if nc.Ext == e.cfg.Ext {
 						nc.Ext = strings.ToLower(e.cfg.Ext)
+					}
+					if nc.Ext == e.cfg.Ext {
+						nc.Ext = e.cfg.Ext + ".X" // (no letters in the extension)
 					}
 					e.flag("incompatible-extension-differs-in-case-only")
 				} else {
@@ -796,7 +881,7 @@ func caseC17Settings(t TB, prog *Program) {
 
 func TestC17(t *testing.T) {
 	st := statsFor("C17")
-	st.Rule = "(i) pairs (stored shape, current shape) from a family of 14 function-local struct declarations sharing the type string props.Shape (base, no exported fields at all, field added / removed / retyped / renamed, nested struct changed, pointer instead of value, only tags changed, identical redeclaration, and five shapes with several fields of one struct type - two / one / three pointers to it, a second value of it, a pointer to it one level down), 0-5 stored objects, cache and compression on/off: every operation (Count, Create, All, Search, Exist, InsertOrUpdate, InsertOrUpdateMany, DeleteAll, Repair, Get, Delete) returns ErrStructureChanged iff the (path,type) sets differ (own reflection walk), Create returns ErrFieldDescModif iff only constraints differ, the directory tree is byte-identical after refusals, compatible Create is idempotent and keeps every object file; (ii) generated edits of the stored descriptor map in schema.json (drop / add / retype / rename / re-constrain a generated path) against the fixed type Doc after a generated history: same oracle; (iii) on a live handle with the virtual clock: Create switching cache on<->off and async off->on, on->off, on->on with other numbers at arbitrary points of a generated history with pending writes (async also switched off through an explicit disabled settings value; the schema handed to Create may carry another Compress flag, which must not change how stored files are named), followed by reads, ticks, further writes and Close; incompatible Create (other extension / constraints) interleaved: predicted error, nothing changes. Oracle: every read path equals the model after every op (so nothing pending is lost or stale after a switch), by Close every accepted write is on disk (independent walker), the process survives (a death is reported by the driver with the case in flight). Non-trivial: shapes differ or constraints differ with >= 1 stored object; descriptor edit on a non-empty database; a switch with >= 1 write lagging on disk, or a cache switch in a case with an accepted update. Distinct by program hash."
+	st.Rule = "(i) pairs (stored shape, current shape) from a family of 18 function-local struct declarations sharing the type string props.Shape (base, no exported fields at all, field added / removed / retyped / renamed, nested struct changed, pointer instead of value, only tags changed, identical redeclaration, and five shapes with several fields of one struct type - two / one / three pointers to it, a second value of it, a pointer to it one level down; and four that turn a nested struct into a slice, an array, a pointer or a slice of pointers of the same struct), 0-5 stored objects, cache and compression on/off: every operation (Count, Create, All, Search, Exist, InsertOrUpdate, InsertOrUpdateMany, DeleteAll, Repair, Get, Delete) returns ErrStructureChanged iff the (path,type) sets differ (own reflection walk), Create returns ErrFieldDescModif iff only constraints differ, the directory tree is byte-identical after refusals, compatible Create is idempotent and keeps every object file; (ii) generated edits of the stored descriptor map in schema.json (drop / add / retype / rename / re-constrain a generated path) against the fixed type Doc after a generated history: same oracle; (iii) on a live handle with the virtual clock: Create switching cache on<->off and async off->on, on->off, on->on with other numbers at arbitrary points of a generated history with pending writes (async also switched off through an explicit disabled settings value; the schema handed to Create may carry another Compress flag, which must not change how stored files are named), followed by reads, ticks, further writes and Close; incompatible Create (other extension / constraints) interleaved: predicted error, nothing changes. Oracle: every read path equals the model after every op (so nothing pending is lost or stale after a switch), by Close every accepted write is on disk (independent walker), the process survives (a death is reported by the driver with the case in flight). Non-trivial: shapes differ or constraints differ with >= 1 stored object; descriptor edit on a non-empty database; a switch with >= 1 write lagging on disk, or a cache switch in a case with an accepted update. Distinct by program hash."
 	st.Assumptions = append(baseAssumptions(), "the current-shape side is a finite hand-written family (Go types are static); the stored side is additionally generated through descriptor edits")
 	t.Run("shapes", func(t *testing.T) {
 		rapid.Check(t, func(rt *rapid.T) {
